@@ -21,4 +21,10 @@ CHECKS = {
         'note': 'Assumed: argparse gives option attributes their declared types; subprocess.Popen starts argv as given; os.path.splitext/join modelled (uninterpreted extension function); an empty match string counts as absent; floats as reals.',
         'technique': 'contract-based deductive verification: path-wise VCs from the real AST, z3',
     },
+    'C10': {
+        'category': 'proof',
+        'text': 'Wiring proved for all option values, outcomes and both limit mechanisms (prlimit / preexec setrlimit): execute() hands the time limit to communicate(), kills the child on TimeoutExpired and performs no blocking call afterwards, records (returncode, None, None, limit); RLIMIT_AS = memout*2^20 iff --memout, RLIMIT_CPU = ceil(timeout) iff a time limit, both applied to the child; matches_golden() rejects a timed-out record and any record with another exit status against a finished golden run; do_golden_runs() derives round((runtime+1)*1.5, 2) when no --timeout is given, records the golden records from the input file and raises SystemExit(1) exactly when a configured match string is absent from the golden output. That the OS enforces the limits is assumed, not proved.',
+        'note': 'Assumed (listed in evidence): kernel enforcement of rlimits, SIGKILL delivery and reaping, communicate(timeout) returning within the limit, floats as reals, round(x,2) within 0.005, execute() abstracted in do_golden_runs. Total-running-time bound follows from these assumptions per call; it is a lemma over call counts, not measured.',
+        'technique': 'contract-based deductive verification: path-wise VCs from the real AST with environment contracts for subprocess/resource, z3',
+    },
 }
